@@ -57,7 +57,7 @@ type c10 struct {
 }
 
 func (c *c10) aloneRun(call Call) Outcome {
-	k := fmt.Sprintf("%s|%d|%d|%d|%d|%d|%v", call.Tmpl, call.FaultProbe, call.FaultProbe2, call.FaultWrite, call.FaultKind, call.SetCfg, call.Data)
+	k := fmt.Sprintf("%s|%d|%d|%d|%d|%d|%v|%v", call.Tmpl, call.FaultProbe, call.FaultProbe2, call.FaultWrite, call.FaultKind, call.SetCfg, call.NilVars, call.Data)
 	if o, ok := c.alone[k]; ok {
 		return o
 	}
@@ -171,6 +171,11 @@ func RunC10(env *sim.Env) {
 			call.String(), prev, want.Describe(), o.Describe(), firstDiff(Norm(want.Out)+"|err="+Norm(want.Err), Norm(o.Out)+"|err="+Norm(o.Err)))
 	}
 
+	// one run in four calls Execute without variables (what the templates need comes from Set globals)
+	nilVars := t.Choose(4) == 3
+	if nilVars {
+		env.Stat("probe:execute_with_nil_variables", 1)
+	}
 	// choose the failing templates
 	nFail := t.Range(1, 2)
 	for fi := 0; fi < nFail; fi++ {
@@ -179,7 +184,7 @@ func RunC10(env *sim.Env) {
 		if t.Choose(2) == 1 {
 			d = data2
 		}
-		base := c.aloneRun(Call{Tmpl: m, Data: d})
+		base := c.aloneRun(Call{Tmpl: m, Data: d, NilVars: nilVars})
 		nProbe, nWrite := base.Probes.Calls, base.W.Writes
 		if nProbe > 2000 || nWrite > 5000 {
 			env.Stat("counters:templates_skipped_too_large", 1)
@@ -199,7 +204,7 @@ func RunC10(env *sim.Env) {
 			// second-level faults: calls that only happen (or still happen) after the first failure,
 			// e.g. inside the catch body it led to - the catch body fails too
 			if nDouble < 8 {
-				o1 := c.aloneRun(Call{Tmpl: m, Data: d, FaultProbe: k})
+				o1 := c.aloneRun(Call{Tmpl: m, Data: d, FaultProbe: k, NilVars: nilVars})
 				if n1 := o1.Probes.Calls; n1 > k {
 					fps = append(fps, fp{probe: k, probe2: k + 1})
 					nDouble++
@@ -227,11 +232,11 @@ func RunC10(env *sim.Env) {
 		}
 		env.Stat("counters:fault_points", int64(len(fps)))
 		// fault-free first (residue after successful executions)
-		exec(Call{Tmpl: m, Data: d})
+		exec(Call{Tmpl: m, Data: d, NilVars: nilVars})
 		for _, f := range fps {
 			for _, follow := range targets {
 				before := pools.RtReusedAfterFail
-				exec(Call{Tmpl: m, Data: d, FaultProbe: f.probe, FaultProbe2: f.probe2, FaultWrite: f.write, FaultKind: f.kind})
+				exec(Call{Tmpl: m, Data: d, FaultProbe: f.probe, FaultProbe2: f.probe2, FaultWrite: f.write, FaultKind: f.kind, NilVars: nilVars})
 				fd := d
 				if follow != m && t.Choose(2) == 1 {
 					fd = data2
@@ -241,7 +246,7 @@ func RunC10(env *sim.Env) {
 					fcfg = 1
 					env.Stat("probe:follow_up_on_another_set", 1)
 				}
-				exec(Call{Tmpl: follow, Data: fd, SetCfg: fcfg})
+				exec(Call{Tmpl: follow, Data: fd, SetCfg: fcfg, NilVars: nilVars})
 				if pools.RtReusedAfterFail > before {
 					failedReuse++
 				}
